@@ -136,7 +136,7 @@ def install_time_contract(eng):
     eng.models['_ZN9djinterop4util8parse_ftERKNSt7__cxx1112basic_stringIcSt11char_traitsIcESaIcEEE'] = parse_ft
 
 
-def install_abstract_v2(eng, fail='none', rows_mode='one', null='never', row_exists=True, sane_ints=True, concrete_blobs=True):
+def install_abstract_v2(eng, fail='none', rows_mode='one', null='never', row_exists=True, sane_ints=True, concrete_blobs=True, fail_reads=False):
     CONCRETE_BLOBS[0] = concrete_blobs
     def blob(st, s_, col):
         cols = select_columns(s_.sql)
@@ -175,7 +175,7 @@ def install_abstract_v2(eng, fail='none', rows_mode='one', null='never', row_exi
         return None
     if rows_mode != 'one': max_rows = 1
     else: max_rows = 2
-    cfg = {'fail': fail, 'blob': blob, 'coltype': coltype, 'rows': rows, 'max_rows': max_rows, 'null': null, 'column': column, 'row_exists': row_exists}
+    cfg = {'fail': fail, 'blob': blob, 'coltype': coltype, 'rows': rows, 'max_rows': max_rows, 'null': null, 'column': column, 'row_exists': row_exists, 'fail_reads': fail_reads}
     models_sqlite.install(eng, cfg)
     models_zlib.install_identity(eng)
     install_time_stubs(eng)
@@ -217,7 +217,9 @@ def oracle_c14(eng, out, st):
     elif q.txn: msg = 'a transaction is left open after the failed call'
     elif q.w_auto: msg = '%d write statement(s) took effect although the call failed (partial update)' % q.w_auto
     if msg is None:
-        st.log.append(('reach', 'failure-checked')); return None
+        st.log.append(('reach', 'failure-checked'))
+        if q.failed[0] == 'read': st.log.append(('reach', 'read-failure-checked'))
+        return None
     steps = ' | '.join('%s%s' % (e[2][:40], ' => ' + str(e[4]) if len(e) > 4 else '') for e in q.log if e[0] == 'step' and e[1] != 'read')
     eng.ensure_model(st)
     opname = OPNAMES.get((eng.params.get('gen', 2), eng.params.get('op')), str(eng.params.get('op')))
@@ -255,7 +257,7 @@ V1_TEXT = {'path', 'filename', 'text', 'uuidofexternaldatabase', 'uri', 'title',
 V1_BLOBS = {'trackdata', 'highresolutionwaveformdata', 'overviewwaveformdata', 'beatdata', 'quickcues', 'loops'}
 OPNAMES.update({(1, k): 'v1 ' + v for k, v in list(OBSERVERS_V2.items()) + list(MUTATORS_V2.items())})
 
-def install_abstract_v1(eng, fail='none', rows_mode='one', null='never', row_exists=True, sane_ints=True, concrete_blobs=True):
+def install_abstract_v1(eng, fail='none', rows_mode='one', null='never', row_exists=True, sane_ints=True, concrete_blobs=True, fail_reads=False):
     CONCRETE_BLOBS[0] = concrete_blobs
     def name_of(s_, col):
         cols = select_columns(s_.sql)
@@ -284,7 +286,7 @@ def install_abstract_v1(eng, fail='none', rows_mode='one', null='never', row_exi
             st.pc.append(z3.And(z3.UGE(v, lo), z3.ULE(v, 1 << 31)))
             return ('int', v)
         return None
-    cfg = {'fail': fail, 'blob': blob, 'coltype': coltype, 'rows': rows, 'max_rows': 2 if rows_mode == 'one' else 1, 'null': null, 'column': column, 'row_exists': row_exists}
+    cfg = {'fail': fail, 'blob': blob, 'coltype': coltype, 'rows': rows, 'max_rows': 2 if rows_mode == 'one' else 1, 'null': null, 'column': column, 'row_exists': row_exists, 'fail_reads': fail_reads}
     models_sqlite.install(eng, cfg)
     models_zlib.install_identity(eng)
     def op_done(st, a):
